@@ -69,8 +69,10 @@ VFS_CMDS = ["sl_vfs L.msh %s" % msh_bytes(3.0, 0.5).hex(), "sl_vfs O.msh %s" % m
 
 def base_lines(base, thr):
     L = ["compiler usethread=%d" % (1 if thr else 0), "option timestep=0.01",
-         "mesh name=m1 %s inertia=1" % TET, "mesh name=m2 %s scale=2,1,1 inertia=1" % TET,
-         "mesh name=m3 %s scale=1,3,1 inertia=1" % TET, "mesh name=m4 %s scale=1,1,0.5 inertia=1" % TET,
+         # user meshes (vertices + faces in the spec) with the scale sign patterns +++, -++ (mirrored: the compiler
+         # flips every triangle), +-- (two negative factors: not mirrored), ++- (mirrored)
+         "mesh name=m1 %s inertia=1" % TET, "mesh name=m2 %s scale=-2,1,1 inertia=1" % TET,
+         "mesh name=m3 %s scale=1,-3,-1 inertia=1" % TET, "mesh name=m4 %s scale=1,1,-0.5 inertia=1" % TET,
          # file meshes through the VFS and the global asset cache: fe and fl load the SAME file with different inertia modes
          "mesh name=fe file=L.msh inertia=1", "mesh name=fl file=L.msh inertia=2", "mesh name=fo file=O.msh inertia=2",
          "texture name=t1 type=0 builtin=2 width=32 height=32 rgb1=1,0,0 rgb2=0,1,0",
@@ -214,6 +216,7 @@ def context(beh, k):
     return "plain"
 
 
+TWICE = [0]         # behaviours in which one spec object (every base has mirrored user meshes) is compiled twice or more
 DIFFERENT = [0]     # pairs of model slots with different contents and different bytes seen in this run
 FIELDS = {"j": ("qpos", "qvel"), "a": ("ctrl", "act"), "u": ("ctrl", "act"), "m": ("mpos", "mquat")}
 DEFAULT_OF = {"qpos": "qpos0", "mpos": "mpos0", "mquat": "mquat0"}
@@ -317,6 +320,14 @@ def replay_behaviours(ctx, exe, behs, nm, label, chunk=400):
                     for (first, c, nout, live, ib, istate) in plan]
             ops = [tlc.to_py(st["ev"]) for st in beh]
             key = [(e["op"], e.get("base"), e.get("thr"), e.get("s"), e.get("s2"), e.get("m"), e.get("m2"), e.get("e")) for e in ops]
+            per = {}
+            for e in ops:
+                if e["op"] == "init":
+                    per[1] = per.get(1, 0) + 1
+                elif e["op"] in ("compile", "recompile"):
+                    per[e["s"]] = per.get(e["s"], 0) + 1
+            if any(v >= 2 for v in per.values()):
+                TWICE[0] += 1
             nrec = sum(1 for e in ops if e["op"] == "recompile")
             ncomp = sum(1 for e in ops if e["op"] in ("compile", "copymodel", "recompile"))
             ctx.case({"ops": key}, nontrivial=ncomp >= 1, sample={"ops": [k[0] for k in key], "recompiles": nrec})
@@ -456,6 +467,8 @@ def run_all(ctx):
                 break
             ctx.trace_ok()
     tladump.timing("c33 threads", t0)
+    if TWICE[0] == 0:
+        raise Machinery("vacuity: no behaviour compiled a spec with a mirrored user mesh twice")
     if DIFFERENT[0] == 0:
         raise Machinery("no two models of different content ever differed in their bytes: the edits have no effect")
     ctx.cov["exhaustive"] = exhaustive
